@@ -1,0 +1,9 @@
+//go:build verif
+
+// Verification hooks. Compiled only with `-tags verif`; add-only.
+package utils
+
+// VerifSanitizeLabelName exposes sanitizeLabelName.
+func VerifSanitizeLabelName(s string) string {
+	return sanitizeLabelName(s)
+}
